@@ -10,5 +10,6 @@ CONSTANTS
  DevKeySites = TRUE
  DevProcForgets = FALSE
  LargeN = 16
+ DevSkipVSWhenNothingToOptimise = FALSE
 INVARIANT UserTemplateWins
 CHECK_DEADLOCK FALSE
